@@ -550,8 +550,8 @@ func (w *world) quiescent(where string) {
 		wk := w.workerOf(t.id)
 		lim := now.Add(-liveBound)
 		if !due.After(lim) && w.busy[wk] == 0 && !w.lastEnd[wk].After(lim) && !t.schedAt.After(lim) {
-			w.violate("run-not-started", "not-started", "%s: task %d (slot %d) run scheduledFor=%s was due at %s, its worker %d is idle since %s, now is %s and the run has not started (When()=%s)",
-				where, t.id, t.slot, ts(t.cur.next), ts(due), wk, ts(w.lastEnd[wk]), ts(now), ts(w.sch.When()))
+			w.violate("run-not-started", "not-started", "%s: task %d (slot %d) run scheduledFor=%s was due at %s, its worker %d is idle since %s, now is %s and the run has not started",
+				where, t.id, t.slot, ts(t.cur.next), ts(due), wk, ts(w.lastEnd[wk]), ts(now))
 			// one report per missed run
 			if nx, err := t.cur.sched.Next(t.cur.next); err == nil {
 				t.cur.next = nx
@@ -562,8 +562,21 @@ func (w *world) quiescent(where string) {
 	if w.c25 {
 		return
 	}
-	got := w.sch.When()
 	w.r.Probe("probe_when_checks")
+	got, exp, expT, quiet := w.sampleWhen()
+	if quiet && !got.Equal(exp) {
+		// confirm one virtual millisecond later: a timer of the scheduler that fired at this very instant
+		// (none on the unchanged tree, whose timers are all on the grid of due times) is given time to be handled
+		w.sleep(time.Millisecond)
+		if w.dead.Load() {
+			return
+		}
+		got, exp, expT, quiet = w.sampleWhen()
+	}
+	if !quiet {
+		w.r.Probe("probe_when_check_not_quiescent")
+		return
+	}
 	if !got.Equal(exp) {
 		kind := "late"
 		switch {
@@ -591,8 +604,25 @@ func (w *world) quiescent(where string) {
 			// one root cause: the time of a removed or postponed earliest run stays in s.when
 			sig = "when-stale:after-" + cause
 		}
-		w.violate("when-wrong", sig, "%s at %s: When()=%s but %s (last removal: %s)", where, ts(now), ts(got), who, cause)
+		w.violate("when-wrong", sig, "%s at %s: When()=%s but %s (last removal: %s)", where, ts(time.Now()), ts(got), who, cause)
 	}
+}
+
+// sampleWhen reads When() (a scheduling point) and then, atomically with the comparison, the earliest pending
+// due time of the model; quiet is false if a run started while When() was being read.
+func (w *world) sampleWhen() (got, exp time.Time, expT *mtask, quiet bool) {
+	e0 := w.execs
+	got = w.sch.When()
+	quiet = w.execs == e0
+	for _, t := range w.order {
+		if t.cur == nil || t.inCall {
+			continue
+		}
+		if due := t.cur.due(); exp.IsZero() || due.Before(exp) {
+			exp, expT = due, t
+		}
+	}
+	return
 }
 
 // ---- C24 operations
